@@ -182,6 +182,10 @@ class HgErr(Exception):
         self.eid = eid
 
 
+class HgStopErr(HgErr, StopIteration):
+    """A StopIteration raised by a node function (a `next()` on an exhausted iterator, say)."""
+
+
 class HgFalsyErr(HgErr):
     """An exception object that is falsy (an error carrying an empty list of problems, say): still THE raised object."""
 
@@ -486,10 +490,14 @@ class RealRun:
     def __init__(self):
         self.log = []
         self.raised = []
+        self.stop = False      # injected errors are StopIteration objects
 
     def env(self, ts=None):
         def _mkerr(eid):
-            e = HgFalsyErr(eid) if eid % 3 == 2 else HgErr(eid)      # a third of the injected errors are falsy objects
+            if self.stop:
+                e = HgStopErr(eid)
+            else:
+                e = HgFalsyErr(eid) if eid % 3 == 2 else HgErr(eid)      # a third of the injected errors are falsy objects
             self.raised.append(e)
             return e
 
@@ -575,6 +583,7 @@ def run_real(g, run, rank=None):
     from hypergraph import SyncRunner, AsyncRunner
 
     rr = RealRun()
+    rr.stop = bool(run.get("stop_iteration"))
     kw = {}
     rkw = {}
     if run.get("cache"):
